@@ -226,6 +226,8 @@ def context_cases(tier, absc):
         for pos in range(len(P)):
             w = P[pos]
             for u, where in ((pos + 1, "back to dest/name"), (pos + 3, "one level above the destination"), (pos + 6, "far above the destination")):
+                if quick and pos and u == pos + 6:
+                    continue
                 hostile.append((P[:pos] + (w + "/.." * u + "/escaped", "b"), f"'{w}/../..' + directory inside one element at position {pos}, {where}"))
                 hostile.append((P[:pos] + (w + "/.." * u, "b"), f"'{w}/../..' inside one element at position {pos}, {where}"))
                 if pos < len(P) - 1:
